@@ -1156,7 +1156,7 @@ pub fn overlap_histories(seed: u64) -> OverlapHistories {
     let res: Mutex<OverlapHistories> = Mutex::new(OverlapHistories { instances: 0, runs: 0, violation: None, samples: vec![], hashes: vec![] });
     let fns: Vec<TestFn> = (0..5).map(|id| TestFn { id, reads: vec![], writes: if id == 4 { vec![0] } else { vec![] } }).collect();
     // 0 -> 1 -> 2, 0 -> 3, 4 alone
-    let spec = GraphSpec { fns, edges: vec![(0, 1, Kind::Logic), (1, 2, Kind::Contains), (0, 3, Kind::Logic)], batches: vec![] };
+    let spec = GraphSpec { fns, edges: vec![(0, 1, Kind::Logic), (1, 2, Kind::Contains), (0, 3, Kind::Logic)], batches: vec![], add_mode: 0 };
     let shapes = [Shape::Stream, Shape::ForEach, Shape::Fold];
     std::thread::scope(|sc| {
         for (ki, k) in [255u64, 256, 65_535, 65_536].into_iter().enumerate() {
